@@ -15,7 +15,7 @@ META = {
                   'compile-time-constant clause checked by _Static_assert samples compiled with gcc, not proved.',
     'design_ref': '§6 C16',
 }
-REQUIRED = ['Librfn.C16.regdump_field_extraction', 'Librfn.C16.bitcnt_is_popcount', 'Librfn.C16.clz_char', 'Librfn.C16.ctz_char', 'Librfn.C16.ilog2_char',
+REQUIRED = ['Librfn.C16.helpers_total', 'Librfn.C16.regdump_field_extraction', 'Librfn.C16.bitcnt_is_popcount', 'Librfn.C16.clz_char', 'Librfn.C16.ctz_char', 'Librfn.C16.ilog2_char',
             'Librfn.C16.const_pop_is_popcount', 'Librfn.C16.const_lssb_char']
 
 
@@ -83,7 +83,7 @@ def static_asserts(ctx, rng):
 
 def run(ctx):
     rng = vlib.Rng(ctx.seed)
-    pc.regen_units(ctx, ['Bitops', 'Constexpr'])
+    pc.regen_units(ctx, ['BitopsSeq', 'ConstexprSeq'])
     proved = ctx.prove(['Librfn.Props.C16'], REQUIRED, allow_extra_axioms=lambda t, a: '_native.bv_decide.ax' in a and t.startswith('Librfn.C16.'))
     exe, fast = pc.build(ctx, 'PURE_BITS')
     calls = gen_inputs(rng, ctx.tier)
